@@ -41,6 +41,8 @@ POOL = [
     "[1, 2].unpack(a, b) -> $a + $b", "with(1, 2) -> [$1, $2]", "range(5).select($ * $.n).toList()", "$.l.enumerate().toList()",
     "dict($.ld.select([$.a, $.b]))", "$.l.join($.ll, true, [$1, $2]).len()", "$.t.len() + $.l.len()", "$.l.indexOf(1)",
     "$.l.accumulate($1 + $2).toList()", "max(1, $.n) + min(3, $.n)", "str($.n)",
+    "sq($.n)", "$.l.select(sq($)).toList()", "addn($.n, 10)", "$.l.select(addn($, $.n)).sum()", "twice($.n) + sq(2)",
+    "$.l.where(sq($) > 4).select(twice($)).toList()",
 ]
 
 
@@ -172,6 +174,14 @@ def shared_context():
         logs.setdefault(threading.get_ident(), []).append(id)
         return value
     shared.register_function(tick, name="tick")
+    # the prepared context also holds functions defined IN yaql (closures that live as long as the context and are
+    # called by every thread)
+    try:
+        prepared = ec.engine()("def(sq, $ * $) -> def(addn, $1 + $2 + $hv.len()) -> def(twice, sq(sq($)))").evaluate(context=shared)
+        if hasattr(prepared, "create_child_context"):
+            shared = prepared
+    except Exception:
+        pass
     return shared, logs
 
 
